@@ -2,6 +2,7 @@
 The real AeRes.make_model runs with sky2pix_ellipse stubbed to return symbolic pixel-frame ellipse parameters;
 box corners are concretised by bounded case split; every pixel value is compared with the oracle Gaussian."""
 import math
+from fractions import Fraction
 import sys
 
 import numpy as real_np
@@ -303,6 +304,63 @@ def replay_case(w):
     return False, None, None
 
 
+CANNED = [dict(R=40, C=40, xo=20.3, yo=21.1, sx=8.0, sy=2.0, th=t) for t in (0.0, 45.0, 80.0, 90.0, -75.0, 135.0)] + \
+         [dict(R=40, C=40, xo=20.3, yo=21.1, sx=2.0, sy=8.0, th=t) for t in (0.0, 10.0, 90.0)] + \
+         [dict(R=30, C=20, xo=1.2, yo=10.0, sx=4.0, sy=3.0, th=30.0), dict(R=30, C=20, xo=29.9, yo=19.8, sx=4.0, sy=3.0, th=-20.0),
+          dict(R=20, C=30, xo=10.0, yo=0.7, sx=6.0, sy=2.0, th=60.0)]
+
+
+def replay_pixel(pr):
+    """the real make_model with a helper that hands back the given pixel-frame ellipse (1-based centre, FWHMs in pixels, angle
+    in degrees): the model must equal the independent Gaussian to 1e-4 of the peak on every image pixel"""
+    ae = loader.real('AeRes')
+    models = loader.real('models')
+    R, C = int(pr['R']), int(pr['C'])
+
+    class H:
+        def sky2pix_ellipse(self, pos, a, b, pa):
+            return pr['xo'], pr['yo'], pr['sx'], pr['sy'], pr['th']
+    src = models.ComponentSource()
+    src.ra, src.dec, src.peak_flux, src.a, src.b, src.pa, src.local_rms = 10.0, -20.0, 2.0, 60.0, 45.0, 0.0, 0.1
+    try:
+        m = real_np.array(ae.make_model([src], (R, C), H()), dtype=float)
+    except Exception as e:
+        return True, 'raises-%s' % type(e).__name__, 'make_model raised %r for pixel ellipse %s' % (e, pr)
+    on = 0.5 <= pr['xo'] < R + 0.5 and 0.5 <= pr['yo'] < C + 0.5
+    want = gauss_oracle((R, C), pr['xo'] - 1, pr['yo'] - 1, pr['sx'], pr['sy'], pr['th'], 2.0) if on else real_np.zeros((R, C))
+    err = float(real_np.abs(m - want).max()) / 2.0
+    if err > 1e-4:
+        return True, 'model-differs', 'pixel ellipse centre (%.3f, %.3f) FWHM (%.3f, %.3f) px angle %.2f deg on a %dx%d image: model differs from the Gaussian by %.3g of the peak' % (pr['xo'], pr['yo'], pr['sx'], pr['sy'], pr['th'], R, C, err)
+    return False, None, None
+
+
+def params_of_model(m, R, C):
+    """pixel ellipse of source 0 from a solver model (trig atoms give the angle)"""
+    try:
+        def f(k):
+            v = m[k]
+            return float(Fraction(str(v))) if not isinstance(v, (int, float)) else float(v)
+        co = [k for k in m if k.startswith('c_') and 'TH0' in k]
+        si = [k for k in m if k.startswith('s_') and 'TH0' in k]
+        th = math.degrees(math.atan2(f(si[0]), f(co[0]))) if co and si else f('TH0')
+        return dict(R=R, C=C, xo=f('XO0'), yo=f('YO0'), sx=f('SX0'), sy=f('SY0'), th=th)
+    except Exception:
+        return None
+
+
+def replay_any(model, R, C):
+    cands = []
+    pr = params_of_model(model or {}, R, C)
+    if pr:
+        cands.append(pr)
+    for pr in cands + CANNED:
+        bad, cls, detail = replay_pixel(pr)
+        if bad:
+            return bad, cls, detail, dict(kind='pixel', params=pr)
+    bad, cls, detail = replay_case({})
+    return bad, cls, detail, dict(kind='render')
+
+
 def run(rep):
     ae, fit, const = sym_aeres()
     thorough = rep.tier == 'thorough'
@@ -343,8 +401,8 @@ def run(rep):
             for ob in r['obligations']:
                 rep.count(ob['result'], ob['name'])
                 if ob['result'] == 'sat' and ob['name'] not in found:
-                    bad, cls, detail = replay_case({})
-                    if rep.finding('C14/K-render/%s' % (cls or ob['name'].split(':')[-1]), dict(kind='render'), detail or ob['name'], reproduced=bad) != 'not-reproduced':
+                    bad, cls, detail, wit = replay_any(ob.get('model'), R, C)
+                    if rep.finding('C14/K-render/%s' % (cls or ob['name'].split(':')[-1]), wit, detail or ob['name'], reproduced=bad) != 'not-reproduced':
                         found.add(ob['name'])
         if res:
             rep.sample(dict(kernel='K-render', plan=kind, shape=(R, C), paths=st.paths, first=[(o['name'].split(':')[-1], o['result']) for o in res[0]['obligations']][:6]))
@@ -353,10 +411,19 @@ def run(rep):
     rep.validated_runs(5)
     if bad:
         rep.finding('C14/K-render/%s' % cls, dict(kind='render'), detail, kernel='K-render')
+    for pr in CANNED:
+        bad, cls, detail = replay_pixel(pr)
+        rep.validated_runs(1)
+        if bad:
+            rep.finding('C14/K-render/%s' % cls, dict(kind='pixel', params=pr), detail, kernel='K-render')
+            break
     rep.not_decided += ['residual < 1e-3 of the peak after subtracting the catalogue Aegean extracted (needs the fit)', 'FITS I/O and column renaming of make_residual/load_sources', 'add-then-subtract restores the image (float32 rounding)']
 
 
 def replay(w):
+    if w['witness'].get('kind') == 'pixel':
+        bad, cls, detail = replay_pixel(w['witness']['params'])
+        return bad, '%s: %s' % (cls, detail)
     bad, cls, detail = replay_case(w['witness'])
     return bad, '%s: %s' % (cls, detail)
 
